@@ -916,7 +916,7 @@ impl Emitter {
         len += emit_cycle_increment(3, &mut exec[len..]);
         len += emit_flag_test(0x10, &mut exec[len..]);
         len += emit_jump_nonzero(4 + 5, &mut exec[len..]);
-        len += emit_cycle_increment(3, &mut exec[len..]);
+        len += emit_cycle_increment(1, &mut exec[len..]);
         len += emit_move_16(X86Reg16::R13, address, &mut exec[len..]);
       },
     }
